@@ -129,6 +129,14 @@ impl HeaderPrefix {
         max_table_size: usize,
     ) -> Result<(usize, usize), ParseError> {
         if max_table_size == 0 {
+            //= https://www.rfc-editor.org/rfc/rfc9204#section-4.5.1.1
+            //# If the decoder encounters a value of EncodedInsertCount that could not
+            //# have been produced by a conformant encoder, it MUST treat this as a
+            //# connection error of type QPACK_DECOMPRESSION_FAILED.
+            // Without a dynamic table (MaxEntries is 0) the only such value is 0.
+            if self.encoded_insert_count != 0 {
+                return Err(ParseError::Integer(prefix_int::Error::Overflow));
+            }
             return Ok((0, 0));
         }
 
